@@ -234,6 +234,12 @@ pub fn run_c07(out: &mut Out, rng: &mut Rng, tier: Tier) -> String {
             }
         }
     }
+    // products with a zero inner dimension (the early-exit path): the result takes lhs's order in all four order combinations
+    for n in 0..=2 {
+        for m in 0..=2 {
+            crate::c11::one(out, n, 0, 0, m, &crate::c11::KINDS);
+        }
+    }
     // Display with multi-line / awkward element renderings: the same logical matrix in both orders
     for nr in 1..=3usize {
         for nc in 1..=3usize {
